@@ -134,6 +134,13 @@ Proof.
 Qed.
 Print Assumptions C03_return_sidechain_deposit_no_panic.
 
+(* CheckInactiveArbitrators / CheckRevertToDPOSTransaction, program part: any
+   number of programs (none included), any code, any arbiter set. *)
+Theorem C03_arbiter_signatures_no_panic : forall counts_ok member codes k,
+  arbiter_signatures counts_ok member codes <> Panic k.
+Proof. intros c m codes. exact (np_no_panic _ (arbiter_signatures_np c m codes)). Qed.
+Print Assumptions C03_arbiter_signatures_no_panic.
+
 (* Transaction level: CheckAttributeProgram (any programs), then - only when
    it accepted, i.e. under exactly the guard it establishes: at least one
    program, every code >= 23 bytes - RunPrograms, the ReturnDepositCoin
@@ -208,6 +215,9 @@ Example C03_nonvacuous2 :
   return_deposit_output 9 90 10 false (Some (Build_deposit_tx [] 0 true [] [])) true 7 = Ok (Some false) /\
   return_deposit_output 9 90 10 false (Some dep_ok) true 7 = Ok None /\
   return_deposit_output 9 90 10 false (Some (Build_deposit_tx [(2, Some [5; 9])] 0 true [0] [])) true 7 = Panic IndexOOR /\
+  arbiter_signatures (fun _ _ => true) (fun _ => true) [] = Ok false /\
+  arbiter_signatures (fun _ _ => true) (fun _ => true) [[]] = Ok false /\
+  arbiter_signatures (fun _ _ => true) (fun _ => true) [ms_good] = Ok true /\
   schnorr_withdraw false [1; 0; 1] [1] true [] [] = Ok false /\
   schnorr_withdraw true [1; 1; 1] [2; 0] true ([81; 33] ++ key33) [[81; 33] ++ key33] = Ok true /\
   schnorr_withdraw true [1; 1; 1] [2; 0] true ([81; 33] ++ key33) [[33] ++ key33 ++ [172]] = Ok false.
